@@ -897,6 +897,10 @@ fn run(op_full: &str, a: &[&str]) -> String {
         // ---- C03 rendering
         "to_string" => format!("ok {}", hex(&canon_text(jsonb::to_string(&unhex(a[0])).as_bytes()))),
         "to_pretty_string" => format!("ok {}", hex(&canon_text(jsonb::to_pretty_string(&unhex(a[0])).as_bytes()))),
+        // the exact bytes of the rendering, nothing canonicalised (the driver has the same two ops): for inputs whose rendering has no
+        // float digits in it -- above all NON-JSONB input, which is echoed through from_utf8_lossy
+        "to_string_bytes" => format!("ok {}", hex(jsonb::to_string(&unhex(a[0])).as_bytes())),
+        "to_pretty_string_bytes" => format!("ok {}", hex(jsonb::to_pretty_string(&unhex(a[0])).as_bytes())),
         "to_string_raw" => format!("ok {}", hex(jsonb::to_string(&unhex(a[0])).as_bytes())),
         "to_pretty_string_raw" => format!("ok {}", hex(jsonb::to_pretty_string(&unhex(a[0])).as_bytes())),
         "text_roundtrip" => {
@@ -1433,6 +1437,94 @@ fn deep(sub: &str, n: usize, kind: &str) -> String {
                 Err(_) => "err Other".into(),
             }
         }
+        // M5: the buffer writers on a deep document.  delete_by_keypath gets a key path as long as the document is deep (one step
+        // per level: index 0 / name "a"), so that it descends all the way; the others get the deep document as an operand
+        "delete_by_keypath" => {
+            let b = deep_bin(n, kind);
+            let kp: Vec<KeyPath> = (0..n)
+                .map(|_| if kind == "arr" { KeyPath::Index(0) } else { KeyPath::Name(Cow::Borrowed("a")) })
+                .collect();
+            let mut buf = vec![];
+            match jsonb::delete_by_keypath(&b, kp.iter(), &mut buf) {
+                Ok(()) => format!("ok {}", buf.len()),
+                Err(_) => "err Other".into(),
+            }
+        }
+        "get_by_keypath" => {
+            let b = deep_bin(n, kind);
+            let kp: Vec<KeyPath> = (0..n)
+                .map(|_| if kind == "arr" { KeyPath::Index(0) } else { KeyPath::Name(Cow::Borrowed("a")) })
+                .collect();
+            match jsonb::get_by_keypath(&b, kp.iter()) {
+                Some(v) => format!("ok {}", v.len()),
+                None => "ok =none".into(),
+            }
+        }
+        "concat" => {
+            let b = deep_bin(n, kind);
+            let mut buf = vec![];
+            match jsonb::concat(&b, &b, &mut buf) {
+                Ok(()) => format!("ok {}", buf.len()),
+                Err(_) => "err Other".into(),
+            }
+        }
+        "array_insert" => {
+            let b = deep_bin(n, kind);
+            let mut buf = vec![];
+            match jsonb::array_insert(&b, 0, &b, &mut buf) {
+                Ok(()) => format!("ok {}", buf.len()),
+                Err(_) => "err Other".into(),
+            }
+        }
+        "object_insert" => {
+            // the deep document as the new value of a member of a small object, and (kind obj) as the object inserted into
+            let b = deep_bin(n, kind);
+            let small = [0x40u8, 0, 0, 1, 0x10, 0, 0, 1, 0, 0, 0, 0, b'a'];
+            let mut buf = vec![];
+            let r1 = jsonb::object_insert(&small, "b", &b, true, &mut buf);
+            let mut buf2 = vec![];
+            let r2 = if kind == "obj" { jsonb::object_insert(&b, "b", &small, true, &mut buf2) } else { Ok(()) };
+            match (r1, r2) {
+                (Ok(()), Ok(())) => format!("ok {}", buf.len() + buf2.len()),
+                _ => "err Other".into(),
+            }
+        }
+        "delete_by_name" => {
+            let mut buf = vec![];
+            match jsonb::delete_by_name(&deep_bin(n, kind), "a", &mut buf) {
+                Ok(()) => format!("ok {}", buf.len()),
+                Err(_) => "err Other".into(),
+            }
+        }
+        "delete_by_index" => {
+            let mut buf = vec![];
+            match jsonb::delete_by_index(&deep_bin(n, kind), 0, &mut buf) {
+                Ok(()) => format!("ok {}", buf.len()),
+                Err(_) => "err Other".into(),
+            }
+        }
+        "object_delete_pick" => {
+            let b = deep_bin(n, kind);
+            let set: BTreeSet<&str> = ["zz"].into_iter().collect();
+            let (mut b1, mut b2) = (vec![], vec![]);
+            let r1 = jsonb::object_delete(&b, &set, &mut b1);
+            let r2 = jsonb::object_pick(&b, &set, &mut b2);
+            match (r1, r2) {
+                (Ok(()), Ok(())) => format!("ok {}", b1.len() + b2.len()),
+                _ => "err Other".into(),
+            }
+        }
+        "array_distinct" => {
+            // the deep document as the single element of an array (the set functions compare elements by their bytes)
+            let b = deep_bin(n, kind);
+            let mut arr = vec![];
+            jsonb::build_array([b.as_slice(), b.as_slice()], &mut arr).unwrap();
+            let mut buf = vec![];
+            match jsonb::array_distinct(&arr, &mut buf) {
+                Ok(()) => format!("ok {}", buf.len()),
+                Err(_) => "err Other".into(),
+            }
+        }
         "to_serde_json" => match jsonb::to_serde_json(&deep_bin(n, kind)) {
             Ok(v) => {
                 std::mem::forget(v);
@@ -1454,8 +1546,21 @@ fn canon_text_scalar(s: &[u8], doc: &[u8]) -> Vec<u8> {
     }
 }
 
+thread_local! {
+    // set by the panic hook when the panic was raised by the harness's OWN source (argument parsing: unwrap / expect / panic! /
+    // an index into the argument list in this file), not by the crate or by std on the crate's behalf (those carry the
+    // location of the crate's call site: #[track_caller])
+    static HARNESS_PANIC: std::cell::Cell<bool> = std::cell::Cell::new(false);
+}
+
 fn main() {
-    std::panic::set_hook(Box::new(|_| {}));
+    std::panic::set_hook(Box::new(|info| {
+        if let Some(loc) = info.location() {
+            if loc.file() == file!() {
+                HARNESS_PANIC.with(|f| f.set(true));
+            }
+        }
+    }));
     let path = std::env::args().nth(1).unwrap_or_else(|| "-".to_string());
     let reader: Box<dyn BufRead> = if path == "-" {
         Box::new(std::io::BufReader::new(std::io::stdin()))
@@ -1463,7 +1568,7 @@ fn main() {
         Box::new(std::io::BufReader::new(std::fs::File::open(&path).expect("open case file")))
     };
     let stdout = std::io::stdout();
-    let mut out = std::io::BufWriter::new(stdout.lock());
+    let mut out = stdout.lock();
     for line in reader.lines() {
         let line = line.unwrap();
         let line = line.trim_end();
@@ -1472,10 +1577,16 @@ fn main() {
         }
         let f: Vec<&str> = line.split(' ').collect();
         let id = f[0];
-        let res = catch_unwind(AssertUnwindSafe(|| run(f[1], &f[2..])));
-        match res {
-            Ok(s) => writeln!(out, "{} {}", id, s).unwrap(),
-            Err(_) => writeln!(out, "{} panic", id).unwrap(),
-        }
+        HARNESS_PANIC.with(|f| f.set(false));
+        let res = catch_unwind(AssertUnwindSafe(|| if f.len() < 2 { "harness-error no-op".to_string() } else { run(f[1], &f[2..]) }));
+        // one write and one flush per outcome: when a later case kills the process (abort, stack overflow) every outcome
+        // computed before it is already in the file
+        let text = match res {
+            Ok(s) => format!("{} {}\n", id, s),
+            Err(_) if HARNESS_PANIC.with(|f| f.get()) => format!("{} harness-error\n", id),
+            Err(_) => format!("{} panic\n", id),
+        };
+        out.write_all(text.as_bytes()).unwrap();
+        out.flush().unwrap();
     }
 }
